@@ -130,6 +130,34 @@ impl CongAlg<Sock> for Alg {
 
 /// the run is bounded by a watchdog: a stop request that does not end the run within 8 s is answered `RES HANG`
 /// (the stuck thread is abandoned; it dies with the process)
+/// two more registrations, so that the builder chain has every kind of step
+struct Alg2(Arc<Shared>);
+impl CongAlg<Sock> for Alg2 {
+    type Flow = Fl;
+    fn name() -> &'static str {
+        "stop2"
+    }
+    fn datapath_programs(&self) -> HashMap<&'static str, String> {
+        HashMap::new()
+    }
+    fn new_flow(&self, _c: Datapath<Sock>, _i: DatapathInfo) -> Fl {
+        Fl(self.0.clone())
+    }
+}
+struct Alg3(Arc<Shared>);
+impl CongAlg<Sock> for Alg3 {
+    type Flow = Fl;
+    fn name() -> &'static str {
+        "stop3"
+    }
+    fn datapath_programs(&self) -> HashMap<&'static str, String> {
+        HashMap::new()
+    }
+    fn new_flow(&self, _c: Datapath<Sock>, _i: DatapathInfo) -> Fl {
+        Fl(self.0.clone())
+    }
+}
+
 pub fn stop(args: &[&str]) -> String {
     let owned: Vec<String> = args.iter().map(|s| s.to_string()).collect();
     let (tx, rx) = std::sync::mpsc::channel();
@@ -149,7 +177,7 @@ fn stop_inner(args: &[&str]) -> String {
     }
     let (run, handle, point) = (args[0], args[1], args[2]);
     let k: usize = args[3].parse().unwrap_or(0);
-    if handle == "internal" && run != "spawn" {
+    if handle == "internal" && run.trim_end_matches("-early") != "spawn" {
         return "BADARG".into();
     }
     let sh = Arc::new(Shared {
@@ -178,8 +206,17 @@ fn stop_inner(args: &[&str]) -> String {
     if point == "pre" && handle == "caller" {
         do_clear(&sh, &stop_arc);
     }
-    let mut b = portus::RunBuilder::new(BackendBuilder { sock }).default_alg(Alg(sh.clone()));
-    if handle == "caller" {
+    // the stop handle may be supplied at either end of the builder chain; every later builder step must carry it along
+    // (`<run>-early`: handle first, then default_alg / additional_alg / try_additional_alg / spawn_thread)
+    let early = run.ends_with("-early");
+    let run = run.trim_end_matches("-early");
+    let b0 = portus::RunBuilder::new(BackendBuilder { sock });
+    let b0 = if handle == "caller" && early { b0.with_stop_handle(stop_arc.clone()) } else { b0 };
+    let mut b = b0
+        .default_alg(Alg(sh.clone()))
+        .additional_alg(Alg2(sh.clone()))
+        .try_additional_alg::<Alg3>(None);
+    if handle == "caller" && !early {
         b = b.with_stop_handle(stop_arc.clone());
     }
     let clear_later = |sh: Arc<Shared>, h: Arc<AtomicBool>, ms: u64| {
